@@ -412,7 +412,7 @@ impl<'a> Tr<'a> {
                         binds.extend(po.binds);
                         trees.push(po.tree);
                     }
-                    self.unify(ty, &Ty::Adt(en.clone()), p.span())?;
+                    self.unify(ty, &Ty::Adt(en.clone(), vec![]), p.span())?;
                     let fam = self.enum_family(&en);
                     return Ok(PatOut {
                         lean: format!("({}.{} {})", lean_en, lean_ident(&last), leans.join(" ")),
@@ -436,7 +436,7 @@ impl<'a> Tr<'a> {
                         binds.extend(po.binds);
                         trees.push(po.tree);
                     }
-                    self.unify(ty, &Ty::Adt(sname.clone()), p.span())?;
+                    self.unify(ty, &Ty::Adt(sname.clone(), vec![]), p.span())?;
                     let n = trees.len();
                     return Ok(PatOut { lean: format!("⟨{}⟩", leans.join(", ")), conds, binds, view: None, tree: PTree::Ctor { name: "mk".into(), family: vec![("mk".into(), n)], args: trees } });
                 }
@@ -470,7 +470,7 @@ impl<'a> Tr<'a> {
                         });
                     }
                     if let Some(lean_en) = self.reg.enums.get(&en).cloned() {
-                        self.unify(ty, &Ty::Adt(en.clone()), p.span())?;
+                        self.unify(ty, &Ty::Adt(en.clone(), vec![]), p.span())?;
                         let fam = self.enum_family(&en);
                         return Ok(PatOut { lean: format!("{}.{}", lean_en, lean_ident(&last)), conds: vec![], binds: vec![], view: None, tree: PTree::Ctor { name: last, family: fam, args: vec![] } });
                     }
@@ -489,7 +489,7 @@ impl<'a> Tr<'a> {
                     if let Some(lean_en) = self.reg.enums.get(&en).cloned() {
                         let names = self.variant_field_names(&en, &last);
                         let tys = self.variant_field_tys(&en, &last, p.span())?;
-                        self.unify(ty, &Ty::Adt(en.clone()), p.span())?;
+                        self.unify(ty, &Ty::Adt(en.clone(), vec![]), p.span())?;
                         let mut leans = Vec::new();
                         let mut conds = Vec::new();
                         let mut binds = Vec::new();
@@ -522,7 +522,7 @@ impl<'a> Tr<'a> {
                     Some(s) if self.reg.structs.contains_key(&sname) => s.clone(),
                     _ => return self.err(p.span(), &format!("struct pattern for `{}` which is not a translation target", sname)),
                 };
-                self.unify(ty, &Ty::Adt(sname.clone()), p.span())?;
+                self.unify(ty, &Ty::Adt(sname.clone(), vec![]), p.span())?;
                 let mut leans = Vec::new();
                 let mut conds = Vec::new();
                 let mut binds = Vec::new();
@@ -626,6 +626,22 @@ impl<'a> Tr<'a> {
         }
         // translate the patterns of every row
         let mut routs: Vec<RowOut> = Vec::new();
+        for r in &rows {
+            // the pretty-printed expansion has lost macro hygiene: two hygienically distinct variables of the same
+            // name in one pattern cannot be told apart in the text
+            let mut seen: Vec<String> = Vec::new();
+            for p in r.pats.iter().flatten() {
+                for n in pat_bound_names(p) {
+                    if !n.chars().next().map(|c| c.is_lowercase() || c == '_').unwrap_or(false) {
+                        continue;
+                    }
+                    if seen.contains(&n) {
+                        return self.err(sp, &format!("the name `{}` is bound twice in one pattern (identifiers distinguished only by macro hygiene)", n));
+                    }
+                    seen.push(n);
+                }
+            }
+        }
         for r in &rows {
             let mut po = Vec::new();
             for (j, p) in r.pats.iter().enumerate() {
